@@ -476,6 +476,7 @@ func (s *Sim) runC05Scenario(sc *Scenario) {
 	pkt := s.scenarioPacket(sc)
 	in := s.classify(pkt)
 	s.Stats.Count("rule:C05.recorded-request")
+	s.logf("C05 scenario %s: success=%v calls=%v", sc.Desc, ex.V.Success, siteList(ex.Calls))
 	if ex.V.Panic != "" {
 		s.violate("C14", "U1-no-panic", "modeb: "+oneLine(ex.V.Panic), ex.V.Panic)
 		return
@@ -726,6 +727,9 @@ func drawC06Scenario(s *Sim, r *Rng) *Scenario {
 	if r.Intn(3) == 0 {
 		sc.Dust[sc.Denom] = fmt.Sprintf("%d", 1+r.Intn(999))
 	}
+	if r.Intn(4) == 0 && finalDenom != sc.Denom {
+		sc.Dust[finalDenom] = fmt.Sprintf("%d", 1+r.Intn(999)) // dust in the denomination the swap produces: only the transferred one is swept
+	}
 	var names []string
 	for _, a := range acts {
 		names = append(names, a.Kind)
@@ -778,7 +782,8 @@ func (s *Sim) runC06Scenario(sc *Scenario) {
 	s.applyLimit(sc.Limit)
 	ex := s.execScenario(sc, nil)
 	s.Stats.Count("rule:C06.order")
-	s.Stats.States[fmt.Sprintf("%s|%v", sc.Desc[:strings.Index(sc.Desc, " rate")], ex.V.Success)] = true
+	s.logf("C06 scenario %s amount=%s: success=%v calls=%v", sc.Desc, sc.Amount, ex.V.Success, siteList(ex.Calls))
+	s.Stats.States[fmt.Sprintf("%s|dust=%d|%v", sc.Desc, len(sc.Dust), ex.V.Success)] = true
 	if ex.V.Panic != "" {
 		s.violate("C14", "U1-no-panic", "modeb: "+oneLine(ex.V.Panic), ex.V.Panic)
 		return
